@@ -338,6 +338,41 @@ Theorem c11_f4_refuted : exists cfg evs,
 Proof. exists w_scfg, w_f4. split; vm_compute; reflexivity. Qed.
 Print Assumptions c11_f4_refuted.
 
+(* CLIENT, identifiers of FINISHED TCP flows (see Props/C10.v c10_tcp_end_releases_identifier): a datagram of a
+   source without association is forwarded - UDP_OPEN then exactly one UDP_DATA with header and captured bytes -
+   whenever one of the 1024 identifiers the cursor visits next is free; the identifier of a TCP flow that has
+   finished is free *)
+Theorem c11_datagram_forwarded_if_identifier_free :
+  forall cfg now src d payload c k,
+  cfg_ok' cfg -> cinv cfg c -> cc_method cfg = MTproxy -> alookup addr_eqb src (c_udp c) = None ->
+  lenN (fst d) <= 61000 -> snd d < 2 ^ 64 ->
+  (k < TRIES)%nat -> c_occ c (chan_iter (S k) (cc_maxc cfg) (c_chani c)) = false ->
+  exists ch c' rest, onaccept_udp all_fixed cfg now src (Some d) payload c =
+     Ok (c', OFrame ch CMD_UDP_OPEN (dec (cc_family cfg)) ::
+             OFrame ch CMD_UDP_DATA (dgram_hdr d (takeN BUFSIZE payload)) :: rest).
+Proof. exact udp_forwards_if_free. Qed.
+Print Assumptions c11_datagram_forwarded_if_identifier_free.
+
+Theorem c11_datagram_forwarded_after_tcp_end :
+  forall cfg c tch c1 o1 now src d payload k,
+  cfg_ok' cfg -> cinv cfg c -> alookup N.eqb tch (c_chan c) = Some KTcp ->
+  cstep all_fixed cfg c (ETcpEnd tch) = Ok (c1, o1) ->
+  cc_method cfg = MTproxy -> alookup addr_eqb src (c_udp c1) = None -> lenN (fst d) <= 61000 -> snd d < 2 ^ 64 ->
+  (k < TRIES)%nat -> chan_iter (S k) (cc_maxc cfg) (c_chani c1) = tch ->
+  exists ch c' rest, onaccept_udp all_fixed cfg now src (Some d) payload c1 =
+     Ok (c', OFrame ch CMD_UDP_OPEN (dec (cc_family cfg)) ::
+             OFrame ch CMD_UDP_DATA (dgram_hdr d (takeN BUFSIZE payload)) :: rest).
+Proof. exact datagram_after_tcp_end. Qed.
+Print Assumptions c11_datagram_forwarded_after_tcp_end.
+
+Example c11_finished_tcp_identifier_reused :
+  snd (fst (crun all_fixed w_cfgT c_init
+        [ETcp 100 2 w_a1; EUdp 100 w_a1 (Some w_a2) []; ETcpEnd 1; EUdp 101 w_a1 (Some w_a2) []])) =
+  [[OFrame 1 CMD_TCP_CONNECT (dec 2 ++ comma :: fst w_a1 ++ comma :: dec (snd w_a1))]; [];
+   [OFrame 1 CMD_TCP_STOP_SENDING []; OFrame 1 CMD_TCP_EOF []];
+   [OFrame 1 CMD_UDP_OPEN (dec 2); OFrame 1 CMD_UDP_DATA (dgram_hdr w_a2 [])]].
+Proof. vm_compute. reflexivity. Qed.
+
 (* ---- non-vacuity ---- *)
 Example c11_init_reachable : cinv w_cfgT c_init.
 Proof. exact (cinv_init w_cfgT). Qed.
